@@ -180,6 +180,23 @@ def fam_binding():
                 yield f"binding k={k} mask={mask:b} kw={nkw} rot={rot}", {"family": "binding", "k": k, "mask": mask, "nkw": nkw, "rot": rot}, build
 
 
+def fam_binding_wide():
+    """12 positional slots (positions >= 10 have two-digit keys), inputs at chosen positions, the input names being
+    fluent's own (input0, input1, ...) in an order that differs from their positions"""
+    for mask in (0b110000000101, 0b100000000000, 0b011111111111, 0b111111111111):
+        for naming in ("by-position", "fluent-reversed"):
+            def build(mask=mask, naming=naming):
+                k = 12
+                fed = [i for i in range(k) if mask >> i & 1]
+                parents = {i: Node(f"p{i}", payload=(functools.partial(term, f"p{i}"), [i], {})) for i in fed}
+                names = {i: (f"in{i}" if naming == "by-position" else f"input{len(fed) - 1 - j}") for j, i in enumerate(fed)}
+                args = [names[i] if i in names else ("sv", 7, None)[i % 3] for i in range(k)]
+                ins = {names[i]: parents[i] for i in fed}
+                c = Node("child", payload=(functools.partial(term, "child"), args, {"kw0": 1}), **ins)
+                return Graph([c])
+            yield f"binding k=12 mask={mask:b} {naming}", {"family": "binding", "k": 12, "mask": mask, "naming": naming}, build
+
+
 def outnames(N, style):
     if style == "decimal":
         return [str(i) for i in range(N)]
@@ -333,6 +350,8 @@ def cases(thorough: bool = False):
         NS = NS_THOROUGH
     cs = []
     for tag, rp, build in fam_binding():
+        cs.append(("graph", tag, rp, build))
+    for tag, rp, build in fam_binding_wide():
         cs.append(("graph", tag, rp, build))
     for tag, rp, build in fam_multi():
         cs.append(("graph", tag, rp, build))
